@@ -413,4 +413,211 @@ Proof.
     destruct (chan from) as [c|] eqn:Ec; try discriminate.
   injection Ha as ->. apply RV_client. rewrite Eb. simpl. unfold name_chans at 2. rewrite Ec. rewrite in_app_iff. right. by left.
 Qed.
+
+(* the subject of a receiving form is consumed: it does not occur in the continuation *)
+Lemma dup_app {A} (l1 l2 : list A) x : NoDup (l1 ++ l2) -> In x l1 -> In x l2 -> False.
+Proof. intros H. apply NoDup_app_inv in H as (_ & _ & H). apply H. Qed.
+
+Lemma subj_consumed sh (pre : list key) (g h : list key -> list key) P k K :
+  Forall (NoDup (A:=key)) (map (fun pk => pre ++ g pk) P) ->
+  In (KC k) pre -> (forall pk, In (KC k) pk -> In (KC k) (g (h pk))) ->
+  (forall pk, In pk (pnames sh K) -> In (h pk) P) ->
+  ~ In k (form_chans K).
+Proof.
+  intros Hnd Hpre Hg HP Hin. destruct (proj1 chans_path_mut K sh k Hin) as (pk & Hpk & Hk).
+  rewrite Forall_forall in Hnd. eapply (dup_app pre (g (h pk))); [apply Hnd, in_map_iff; eauto|done|auto].
+Qed.
+
+Lemma find_branch_paths l bs pay K sh :
+  find_branch l bs = Some (pay, K) ->
+  (forall i, In i (form_chans K) -> In i (brs_chans bs)) /\
+  (forall pk, In pk (pnames sh K) -> In (rmv [pay] pk) (pnames_bc sh bs)) /\
+  (forall pk, In pk (pnames (Some (ident pay)) K) -> In pk (pnames_bp bs)).
+Proof.
+  induction bs as [|l' p' k' r IH]; simpl; [discriminate|].
+  destruct (String.eqb l' l).
+  - intros [= -> ->]. split; [intros i Hi; apply in_app_iff; by left|].
+    split; intros pk Hpk; apply in_app_iff; left; [apply in_map_iff; eauto|done].
+  - intros H. destruct (IH H) as (H1 & H2 & H3). split; [intros i Hi; apply in_app_iff; right; auto|].
+    split; intros pk Hpk; apply in_app_iff; right; auto.
+Qed.
+
+Lemma in_ne' l (a : list key) : In a l -> In a (ne l).
+Proof. apply in_ne. Qed.
+
+Lemma topo_ne c o k j : Topo c -> obj_in c o -> k ∈ provides o -> j ∈ refs o -> k <> j.
+Proof. intros Ht Ho Hk Hj ->. destruct (topo_rank c Ht) as (rk & M & _ & Hr). specialize (Hr o j j Ho Hk Hj). lia. Qed.
+
+Definition core_recv (pp : proc) (m : msg) : Prop :=
+  m_rule m <> RGC /\
+  match pr_body0 pp with FFwd _ _ d => d = false /\ m_rule m <> RFWD | _ => True end.
+
+Lemma set_provs_body_fields pp ps b : pr_provs (set_provs_body pp ps b) = ps /\ pr_body0 (set_provs_body pp ps b) = b.
+Proof. done. Qed.
+Lemma set_body_fields pp b : pr_provs (set_body pp b) = pr_provs pp /\ pr_body0 (set_body pp b) = b.
+Proof. done. Qed.
+
+Lemma topo_recv_step c p pp k st m e :
+  Topo c -> LinCfg c -> procs c !! p = Some pp -> pr_provs pp <> [] ->
+  action_of Async D pp = ARecv k -> chans c !! k = Some st -> ch_buf st = Some m -> ch_closed st = false ->
+  on_message p pp m = EOk e -> core_recv pp m ->
+  Topo (apply_effect (put_msg c k st None) p pp e).
+Proof.
+  intros Ht Hl Hp Hne Ha Hk Hb Hcl He [Hgc Hcore].
+  assert (Hmsg : obj_in c (OMsg k m)) by (exists st; done).
+  assert (Hlin : affr None (pr_body0 pp)) by (exact (lc_procs c Hl p pp Hp)).
+  assert (Hml : NoDup (refs (OMsg k m))) by (exact (lc_msgs c Hl k st m Hk Hb)).
+  pose proof (recv_view_of pp k Hne Ha) as Hview.
+  (* the self case: the message refers to k *)
+  assert (Hself : forall newp body',
+     k ∈ refs (OMsg k m) ->
+     (forall j, j ∈ cids_of newp <-> j ∈ provides (OMsg k m)) ->
+     (forall i, i ∈ form_chans body' -> i ∈ form_chans (pr_body0 pp) \/ (i ∈ refs (OMsg k m) /\ i <> k)) ->
+     forall (clk : bool) nx, (clk = true -> is_fwd_body pp = false) ->
+     Topo (Cfg (<[p := Proc newp body' nx]> (procs c)) (<[k := Chan None clk]> (chans c)) (out c))).
+  { intros newp body' Hkr Hpv Hbd clk nx _. destruct Hview as [n Hn Hcn _|Hc].
+    - eapply (topo_recv_self c p pp n k st m (Proc newp body' nx) clk); eauto.
+    - exfalso. assert (E : OProc p pp = OMsg k m); [|discriminate].
+      eapply (topo_ref_unique c Ht _ _ k); eauto. cbn. by apply elem_In. }
+  (* the client case: the message provides k *)
+  assert (Hclient : forall body',
+     provides (OMsg k m) = [k] ->
+     (forall i, i ∈ form_chans body' -> i ∈ form_chans (pr_body0 pp) \/ i ∈ refs (OMsg k m)) ->
+     k ∉ form_chans body' ->
+     forall nx, Topo (Cfg (<[p := Proc (pr_provs pp) body' nx]> (procs c)) (<[k := Chan None false]> (chans c)) (out c))).
+  { intros body' Hpm Hbd Hkn nx. destruct Hview as [n Hn Hcn _|Hc].
+    - exfalso. assert (E : OProc p pp = OMsg k m); [|discriminate].
+      eapply (topo_prov_unique c Ht _ _ k); eauto; [|rewrite Hpm; set_solver]. cbn. rewrite Hn. cbn. rewrite Hcn. set_solver.
+    - eapply (topo_recv_client c p pp k st m (Proc (pr_provs pp) body' nx)); eauto. cbn. by apply elem_In. }
+  assert (Hkm : forall j, j ∈ refs (OMsg k m) -> provides (OMsg k m) = [k] -> j <> k).
+  { intros j Hj Hpm E. subst j. eapply (topo_ne c (OMsg k m) k k); eauto. rewrite Hpm. set_solver. }
+  unfold on_message in He. fold (is_fwd_body pp) in He.
+  destruct (rule_eqb (m_rule m) RFWD && negb (is_fwd_body pp)) eqn:Ereq.
+  { (* a forward request: the process takes over the providers of the forward *)
+    apply andb_true_iff in Ereq as [Er Ef]. apply rule_eqb_eq in Er. apply negb_true_iff in Ef.
+    injection He as <-. rewrite apply_recv_effect. cbn [pr_provs pr_body0 set_provs_body].
+    destruct Hview as [n Hn Hcn _|Hc].
+    - rewrite Hn. cbn [cids_of flat_map]. rewrite Hcn. cbn [app]. rewrite Hcl, close_all_one.
+      apply Hself; try done.
+      + cbn. rewrite Er. set_solver.
+      + intros j. cbn. by rewrite Er.
+      + intros i Hi. by left.
+    - exfalso. assert (E : OProc p pp = OMsg k m); [|discriminate].
+      eapply (topo_ref_unique c Ht _ _ k); eauto; cbn; [by apply elem_In|rewrite Er; set_solver]. }
+  destruct (rule_eqb (m_rule m) RGC && negb (is_fwd_body pp)) eqn:Egc.
+  { apply andb_true_iff in Egc as [Er _]. apply rule_eqb_eq in Er. contradiction. }
+  unfold action_of in Ha.
+  destruct (pr_body0 pp) as [to pay cont|pay cont from k0|to l cont|from bs|x b k0|c0|c0 k0|to from d|x y from k0|fn args pt|to cont|x from k0|c0 k0|l k0] eqn:Eb;
+    try discriminate.
+  - (* FRecv *) destruct (is_self from) eqn:Es.
+    + destruct (rule_eqb (m_rule m) RRCV) eqn:Er; [|discriminate]. apply rule_eqb_eq in Er.
+      injection He as <-. unfold no_eff. rewrite apply_recv_effect. cbn [pr_provs pr_body0 set_provs_body close_all foldr].
+      rewrite Hcl. apply Hself; try done.
+      * cbn. rewrite Er. set_solver.
+      * intros j. cbn. rewrite Er, app_nil_r. done.
+      * intros i Hi. apply elem_In in Hi. apply form_chans_subst in Hi as [Hi|Hi]; [|by destruct Hi].
+        apply form_chans_subst in Hi as [Hi|Hi].
+        -- left. apply elem_In. simpl. apply in_app_iff. by right.
+        -- right. cbn in Hml |- *. rewrite Er in Hml |- *. apply NoDup_cons_iff in Hml as [Hml _].
+           split; [right; by apply elem_In|]. intros ->. done.
+    + destruct (rule_eqb (m_rule m) RSND) eqn:Er; [|discriminate]. apply rule_eqb_eq in Er.
+      injection He as <-. unfold no_eff. rewrite apply_recv_effect. cbn [pr_provs pr_body0 set_body close_all foldr].
+      rewrite Hcl. apply recv_on_inv in Ha as [Hcf _].
+      assert (Hpm : provides (OMsg k m) = [k]) by (cbn; by rewrite Er).
+      apply Hclient; try done.
+      * intros i Hi. apply elem_In in Hi. apply form_chans_subst in Hi as [Hi|Hi]; [apply form_chans_subst in Hi as [Hi|Hi]|].
+        -- left. apply elem_In. simpl. apply in_app_iff. by right.
+        -- right. cbn. rewrite Er. apply elem_In. apply in_app_iff. by left.
+        -- right. cbn. rewrite Er. apply elem_In. apply in_app_iff. by right.
+      * intros Hi. apply elem_In in Hi. apply form_chans_subst in Hi as [Hi|Hi]; [apply form_chans_subst in Hi as [Hi|Hi]|].
+        -- revert Hi. apply affr_aff in Hlin. unfold aff in Hlin. simpl in Hlin.
+           assert (Hpd : pdes None from = false) by (unfold pdes, initialized; by rewrite Hcf). rewrite Hpd in Hlin.
+           eapply (subj_consumed None (uname None from) (rmv [pay; cont]) (fun pk => pk) (pnames None k0) k k0); eauto.
+           ++ apply uname_chan. unfold name_chans. rewrite Hcf. by left.
+           ++ intros pk. apply rmv_chan.
+        -- eapply (Hkm k); eauto. cbn. rewrite Er. apply elem_In, in_app_iff. by left.
+        -- eapply (Hkm k); eauto. cbn. rewrite Er. apply elem_In, in_app_iff. by right.
+  - (* FCase *) destruct (is_self from) eqn:Es.
+    + destruct (rule_eqb (m_rule m) RBRA) eqn:Er; [|discriminate]. apply rule_eqb_eq in Er.
+      destruct (find_branch (m_label m) bs) as [[pay K]|] eqn:Efb; [|discriminate].
+      injection He as <-. unfold no_eff. rewrite apply_recv_effect. cbn [pr_provs pr_body0 set_provs_body close_all foldr].
+      rewrite Hcl. apply Hself; try done.
+      * cbn. rewrite Er. set_solver.
+      * intros j. cbn. rewrite Er, app_nil_r. done.
+      * intros i Hi. apply elem_In in Hi. apply form_chans_subst in Hi as [Hi|Hi]; [|by destruct Hi].
+        left. apply elem_In. simpl. apply in_app_iff. right. by apply (find_branch_paths _ _ _ _ None Efb).
+    + destruct (rule_eqb (m_rule m) RSEL) eqn:Er; [|discriminate]. apply rule_eqb_eq in Er.
+      destruct (find_branch (m_label m) bs) as [[pay K]|] eqn:Efb; [|discriminate].
+      injection He as <-. unfold no_eff. rewrite apply_recv_effect. cbn [pr_provs pr_body0 set_body close_all foldr].
+      rewrite Hcl. apply recv_on_inv in Ha as [Hcf _].
+      assert (Hpm : provides (OMsg k m) = [k]) by (cbn; by rewrite Er).
+      destruct (find_branch_paths _ _ _ _ None Efb) as (Hfb1 & Hfb2 & _).
+      apply Hclient; try done.
+      * intros i Hi. apply elem_In in Hi. apply form_chans_subst in Hi as [Hi|Hi].
+        -- left. apply elem_In. simpl. apply in_app_iff. right. by apply Hfb1.
+        -- right. cbn. rewrite Er. by apply elem_In.
+      * intros Hi. apply elem_In in Hi. apply form_chans_subst in Hi as [Hi|Hi].
+        -- revert Hi. apply affr_aff in Hlin. unfold aff in Hlin. simpl in Hlin.
+           assert (Hpd : pdes None from = false) by (unfold pdes, initialized; by rewrite Hcf). rewrite Hpd in Hlin.
+           eapply (subj_consumed None (uname None from) (fun pk => pk) (rmv [pay]) (ne (pnames_bc None bs)) k K); eauto.
+           ++ apply uname_chan. unfold name_chans. rewrite Hcf. by left.
+           ++ intros pk. apply rmv_chan.
+           ++ intros pk Hpk. apply in_ne. by apply Hfb2.
+        -- eapply (Hkm k); eauto. cbn. rewrite Er. by apply elem_In.
+  - (* FWait *)
+    destruct (rule_eqb (m_rule m) RCLS) eqn:Er; [|discriminate]. apply rule_eqb_eq in Er.
+    injection He as <-. unfold no_eff. rewrite apply_recv_effect. cbn [pr_provs pr_body0 set_body close_all foldr].
+    rewrite Hcl. destruct (is_self c0) eqn:Es; [discriminate|]. apply recv_on_inv in Ha as [Hcf _].
+    assert (Hpm : provides (OMsg k m) = [k]) by (cbn; by rewrite Er).
+    apply Hclient; try done.
+    + intros i Hi. left. apply elem_In. simpl. apply in_app_iff. right. by apply elem_In.
+    + intros Hi. apply elem_In in Hi. revert Hi. apply affr_aff in Hlin. unfold aff in Hlin. simpl in Hlin.
+      eapply (subj_consumed None (uname None c0) (fun pk => pk) (fun pk => pk) (pnames None k0) k k0); eauto.
+      apply uname_chan. unfold name_chans. rewrite Hcf. by left.
+  - (* FFwd: a positive forward relays the message *)
+    destruct Hcore as [-> Hnf].
+    assert (Hcf : chan from = Some k).
+    { simpl in Ha. destruct (negb (is_self to)); [discriminate|].
+      destruct (fwd_polarity D from) as [[| |]|w|w]; try discriminate; destruct (chan from); try discriminate. by injection Ha as ->. }
+    assert (Hto : ~ In k (name_chans to)).
+    { apply affr_aff in Hlin. unfold aff in Hlin. simpl in Hlin. apply Forall_inv in Hlin. intros Hin.
+      eapply (dup_app (uname None to) (uname None from)); [exact Hlin|by apply uname_chan|].
+      apply uname_chan. unfold name_chans. rewrite Hcf. by left. }
+    assert (Hfin : forall body', provides (OMsg k m) = [k] ->
+       (forall i, In i (form_chans body') -> In i (name_chans to) \/ i ∈ refs (OMsg k m)) ->
+       Topo (apply_effect (put_msg c k st None) p pp (no_eff (Continue (set_body pp body'))))).
+    { intros body' Hpm Hbd. unfold no_eff. rewrite apply_recv_effect. cbn [pr_provs pr_body0 set_body close_all foldr].
+      rewrite Hcl. apply Hclient; try done.
+      - intros i Hi. apply elem_In in Hi. destruct (Hbd i Hi) as [H|H]; [left|by right].
+        apply elem_In. simpl. apply in_app_iff. by left.
+      - intros Hi. apply elem_In in Hi. destruct (Hbd k Hi) as [H|H]; [done|]. by eapply (Hkm k). }
+    destruct (m_rule m) eqn:Er; try discriminate; try (by destruct Hnf); injection He as <-; apply Hfin; cbn; rewrite ?Er; try done.
+    + intros i Hi. simpl in Hi. rewrite !in_app_iff in Hi. rewrite elem_In, in_app_iff. tauto.
+    + intros i Hi. simpl in Hi. left. exact Hi.
+    + intros i Hi. simpl in Hi. rewrite !in_app_iff in Hi. rewrite elem_In. tauto.
+    + intros i Hi. simpl in Hi. rewrite !in_app_iff in Hi. rewrite elem_In. tauto.
+  - (* FShift *) destruct (is_self from) eqn:Es.
+    + destruct (rule_eqb (m_rule m) RSHF) eqn:Er; [|discriminate]. apply rule_eqb_eq in Er.
+      injection He as <-. unfold no_eff. rewrite apply_recv_effect. cbn [pr_provs pr_body0 set_provs_body close_all foldr].
+      rewrite Hcl. apply Hself; try done.
+      * cbn. rewrite Er. set_solver.
+      * intros j. cbn. rewrite Er, app_nil_r. done.
+      * intros i Hi. apply elem_In in Hi. apply form_chans_subst in Hi as [Hi|Hi]; [|by destruct Hi].
+        left. apply elem_In. simpl. apply in_app_iff. by right.
+    + destruct (rule_eqb (m_rule m) RCST) eqn:Er; [|discriminate]. apply rule_eqb_eq in Er.
+      injection He as <-. unfold no_eff. rewrite apply_recv_effect. cbn [pr_provs pr_body0 set_body close_all foldr].
+      rewrite Hcl. apply recv_on_inv in Ha as [Hcf _].
+      assert (Hpm : provides (OMsg k m) = [k]) by (cbn; by rewrite Er).
+      apply Hclient; try done.
+      * intros i Hi. apply elem_In in Hi. apply form_chans_subst in Hi as [Hi|Hi].
+        -- left. apply elem_In. simpl. apply in_app_iff. by right.
+        -- right. cbn. rewrite Er. by apply elem_In.
+      * intros Hi. apply elem_In in Hi. apply form_chans_subst in Hi as [Hi|Hi].
+        -- revert Hi. apply affr_aff in Hlin. unfold aff in Hlin. simpl in Hlin.
+           assert (Hpd : pdes None from = false) by (unfold pdes, initialized; by rewrite Hcf). rewrite Hpd in Hlin.
+           eapply (subj_consumed None (uname None from) (rmv [x]) (fun pk => pk) (pnames None k0) k k0); eauto.
+           ++ apply uname_chan. unfold name_chans. rewrite Hcf. by left.
+           ++ intros pk. apply rmv_chan.
+        -- eapply (Hkm k); eauto. cbn. rewrite Er. by apply elem_In.
+Qed.
 End Step.
